@@ -63,7 +63,7 @@ def gen_cases(rng, tier):
     for _ in range(n):
         kinds = rng.choice([('r',), ('r', 'x'), ('r', 'x', 'rm', 'ad'), ('rm', 'ad')])
         case = ctl.normalise_case(ctl.gen_session(rng, n_steps=rng.choice([20, 40, 60]), events=True, listeners=True,
-                                                  loss=False, acts_kinds=kinds))
+                                                  loss=False, acts_kinds=kinds, debug=rng.random() < 0.15))
         yield ctlprop.to_json_case(case)
         yield ctlprop.to_json_case(ctlprop.rechunk(case, rng.choice(['bytewise', 'random']), rng))
 
